@@ -84,8 +84,16 @@ def sign(x):
 # generators
 
 
-def gen_vec(rng, n, L):
-  """float32-exact vectors structured by the branches of the quantizer."""
+SCALES = [0, 0, 0, 0, 0, -24, -30, -40, -34, 20]
+
+
+def gen_vec(rng, n, L, scale=None):
+  """float32-exact vectors structured by the branches of the quantizer, times a power of two.
+
+  The dyadic rescaling 2^e (e in 0, -24 .. -40, +20) is exact in float32 and keeps the vector on /
+  off its grid exactly as before; every clause of the property is invariant under it (C11_scale),
+  and every tolerance of the oracle is relative to the vector's own magnitude, so tiny model
+  deltas (range far below 1e-6) are judged as strictly as O(1) vectors."""
   kind = rng.choice(['const', 'zeros', 'grid', 'grid', 'ints', 'dyadic', 'normal', 'range', 'two', 'near'])
   if kind == 'const':
     c = rng.choice([0.0, 1.0, -2.5, 4.0, 1e-3, 3e5])
@@ -116,22 +124,26 @@ def gen_vec(rng, n, L):
     v = [rng.choice([a, b]) for _ in range(n)]
   else:  # 'near': close to grid points but not on them
     v = [rng.randrange(L) + rng.choice([0.0, 2.0 ** -10, -2.0 ** -10, 0.5]) for _ in range(n)]
-  return [f32(x) for x in v], kind
+  e = rng.choice(SCALES) if scale is None else scale
+  return [f32(f32(x) * 2.0 ** e) for x in v], (kind if e == 0 else f'{kind}*2^{e}')
 
 
 def gen_tree(rng, L, nleaves=None, scalar_ok=True):
   nl = nleaves or rng.choice([1, 1, 2, 3])
   # 0-d leaves only without rotation (inverse_structured_rotation of a 0-d leaf is C18's finding)
-  pool = [[1], [3], [5], [8], [3, 4], [17]] + ([[]] if scalar_ok else [])
+  pool = [[1], [3], [8], [3, 4], [17]] + ([[]] if scalar_ok else [])   # few shapes: XLA compiles per tree
   return [rng.choice(pool) for _ in range(nl)]
 
 
 class C11(core.Property):
   ID = 'C11'
   RULE = ('cases: single quantizer calls (vector kind const/zeros/on-grid/ints/dyadic/normal/2^40 range/'
-          'two-valued/near-grid x sizes 1..64 x shapes x L in {2,3,4,7,16,256} x key), aggregator histories '
-          '(4 aggregators + arithmetic coding, 1..4 clients incl. weight 0 and all-zero leaves, 1..4 rounds, '
-          '1..3 leaves), expectation estimates over 4096 keys (Bernstein bound, 1e-10), u==0 hunts, float32 range probes; '
+          'two-valued/near-grid, each times 2^e with e in {0,-24,-30,-34,-40,+20} x sizes 1..64 x shapes x L in '
+          '{2,3,4,7,16,256} x key; all tolerances relative to the vector itself), aggregator histories on ONE '
+          'aggregator object (4 aggregators + arithmetic coding, 0..4 clients incl. weight 0 and all-zero leaves, '
+          '1..4 rounds, 1..3 leaves, leaf shapes / number of leaves constant or changing between rounds, tiny / '
+          'mixed / large magnitudes; bit increment judged per round on that round\'s tree; round 0 replayed from '
+          'init() at the end), expectation estimates over 4096 keys (Bernstein bound, 1e-10), u==0 hunts, float32 range probes; '
           'non-trivial = the vector has at least one coordinate strictly between two grid levels '
           '(quant/bias) or at least two clients with different trees (agg); distinct by case digest')
   TRUSTED = ['JAX PRNG idealisation: distinct key paths give independent uniform streams (C11_keys_fresh '
@@ -181,8 +193,8 @@ class C11(core.Property):
 
   # ---------------------------------------------------------------------------------------------
   def gen_cases(self, rng, tier):
-    n_quant = {'quick': 420, 'thorough': 5000, 'search': 300}[tier]
-    n_agg = {'quick': 44, 'thorough': 600, 'search': 30}[tier]
+    n_quant = {'quick': 360, 'thorough': 5000, 'search': 300}[tier]
+    n_agg = {'quick': 32, 'thorough': 600, 'search': 30}[tier]
     n_bias = {'quick': 10, 'thorough': 120, 'search': 40}[tier]
     n_big = {'quick': 16, 'thorough': 64, 'search': 24}[tier]
     # float32 range probes (real code only)
@@ -198,9 +210,13 @@ class C11(core.Property):
             v = [float((code // 4 ** i) % 4) for i in range(n)]
             for q in ('uniform', 'binary', 'tern', 'drive'):
               yield {'kind': 'quant', 'q': q, 'v': v, 'shape': [n], 'L': L, 'seed': code % 7}
+              if n <= 3:
+                yield {'kind': 'quant', 'q': q, 'v': [f32(x * 2.0 ** -33) for x in v], 'shape': [n], 'L': L,
+                       'seed': code % 7, 'vk': 'enum*2^-33'}
     sched = (['quant'] * n_quant + ['agg'] * n_agg + ['bias'] * n_bias + ['grid_big'] * n_big +
              ['tie_big'] * (n_big // 2))
     rng.shuffle(sched)
+    agg_i = rng.randrange(40)
     for kind in sched:
       if kind == 'quant':
         shape = rng.choice(SHAPES)
@@ -210,7 +226,8 @@ class C11(core.Property):
         yield {'kind': 'quant', 'q': rng.choice(['uniform', 'uniform', 'binary', 'tern', 'drive']),
                'v': v, 'shape': shape, 'L': L, 'seed': rng.randrange(1 << 30), 'vk': vk}
       elif kind == 'agg':
-        yield self.gen_agg(rng)
+        yield self.gen_agg(rng, agg_i)
+        agg_i += 1
       elif kind == 'bias':
         L = rng.choice([2, 3, 4, 7, 16])
         n = rng.choice([3, 5, 8])
@@ -223,12 +240,35 @@ class C11(core.Property):
         yield {'kind': 'grid_big', 'q': rng.choice(['binary', 'binary', 'uniform', 'tern']), 'log2n': 22,
                'seed': rng.randrange(1 << 30)}
 
-  def gen_agg(self, rng):
-    agg = rng.choice(['uniform', 'uniform', 'uniform_arith', 'rotated', 'rotated', 'drive', 'drive', 'tern'])
+  def gen_agg(self, rng, idx=None):
+    # stratified over (aggregator, how the tree changes between rounds) so that every combination
+    # occurs in every run, whatever the seed
+    AGGS = ['uniform', 'drive', 'rotated', 'tern', 'uniform_arith', 'drive', 'rotated', 'uniform']
+    VARY = ['shapes', 'same', 'leaves', 'shapes', 'same']
+    if idx is None:
+      idx = rng.randrange(40)
+    agg = AGGS[idx % 8]
     L = rng.choice([2, 3, 4, 7, 16] if agg == 'rotated' else LEVELS)
-    shapes = gen_tree(rng, L, scalar_ok=agg not in ('rotated', 'drive'))
-    rounds = []
-    for _ in range(rng.choice([1, 2, 2, 3, 4])):
+    scalar_ok = agg not in ('rotated', 'drive')
+    shapes = gen_tree(rng, L, scalar_ok=scalar_ok)
+    # one aggregator object serves the whole history; the tree may keep its keys and change its
+    # leaf shapes between rounds ('shapes'), or even its number of leaves ('leaves')
+    vary = VARY[(idx // 8) % 5]
+    # per-case scale policy: mixed (each leaf draws its own), or one tiny / large scale for the case
+    case_scale = rng.choice([None, None, None, -24, -30, -40, 20])
+    rounds, round_shapes = [], []
+    size = lambda shs: sum(int(np.prod(sh)) if sh else 1 for sh in shs)
+    for r in range(rng.choice([1, 2, 2, 3, 3, 4] if vary == 'same' else [2, 2, 3, 3, 4])):
+      if r > 0 and vary == 'shapes':
+        first = round_shapes[0]
+        for _ in range(8):   # same keys, and at least one round with a different number of parameters
+          shapes = gen_tree(rng, L, nleaves=len(first), scalar_ok=scalar_ok)
+          if r < 2 and size(shapes) != size(first):
+            break
+          if r >= 2:
+            break
+      elif r > 0 and vary == 'leaves':
+        shapes = gen_tree(rng, L, scalar_ok=scalar_ok)
       clients = []
       for _ in range(rng.choice([1, 2, 3, 4]) if rng.random() > 0.04 else 0):
         leaves = []
@@ -237,16 +277,35 @@ class C11(core.Property):
           if rng.random() < 0.12:
             leaves.append([0.0] * n)
           else:
-            leaves.append(gen_vec(rng, n, L)[0])
+            leaves.append(gen_vec(rng, n, L, scale=case_scale)[0])
         w = rng.choice([0.0, 1.0, 1.0, 2.0, 3.0, 0.5, 10.0])
         clients.append([leaves, w])
       rounds.append(clients)
-    return {'kind': 'agg', 'agg': agg, 'L': L, 'shapes': shapes, 'rounds': rounds,
+      round_shapes.append(shapes)
+    return {'kind': 'agg', 'agg': agg, 'L': L, 'round_shapes': round_shapes, 'rounds': rounds,
             'seed': rng.randrange(1 << 30)}
+
+  @staticmethod
+  def rshapes(case):
+    """leaf shapes per round (older corpus cases carry one `shapes` list for all rounds)."""
+    if 'round_shapes' in case:
+      return case['round_shapes']
+    return [case['shapes']] * len(case['rounds'])
 
   def search_cases(self, rng):
     # first: targeted probes of each clause, then more generated cases
     yield {'kind': 'grid_big', 'q': 'binary', 'log2n': 22, 'seed': 4}
+    for e in (-30, -40):
+      for q in ('uniform', 'binary', 'tern', 'drive'):
+        yield {'kind': 'quant', 'q': q, 'v': [f32(x * 2.0 ** e) for x in (0.0, 1.0, 2.0, 1.0, 2.0, 0.0)],
+               'shape': [6], 'L': 3, 'seed': 1, 'vk': f'grid*2^{e}'}
+      yield {'kind': 'bias', 'q': 'uniform', 'v': [f32(x * 2.0 ** e) for x in (0.0, 0.25, 0.75, 1.0)], 'L': 2,
+             'seed': 11, 'n': 4096}
+    for a in ('drive', 'uniform', 'rotated', 'tern'):
+      yield {'kind': 'agg', 'agg': a, 'L': 4, 'seed': 3,
+             'round_shapes': [[[3], [1]], [[3], [1]], [[3, 4], [5]], [[3], [1]], [[17], [1]]],
+             'rounds': [[[[[float(i + j) for j in range(int(np.prod(sh)))] for sh in shs], 1.0 + i] for i in range(2)]
+                        for shs in [[[3], [1]], [[3], [1]], [[3, 4], [5]], [[3], [1]], [[17], [1]]]]}
     for q in ('uniform', 'binary', 'tern'):
       for L in (2, 4):
         yield {'kind': 'bias', 'q': q, 'v': [0.0, 0.25, 1.0, 1.5, 4.0], 'L': L, 'seed': 11, 'n': 4096}
@@ -266,8 +325,10 @@ class C11(core.Property):
             yield c
       elif k == 'quant':
         yield dict(case, shape=[n])
+      big = max([abs(x) for x in v if x != 0.0] + [0.0])
+      q_ = 2.0 ** (math.floor(math.log2(big)) - 2) if big else 1.0
       for i in range(n):
-        for r in (0.0, float(round(v[i]))):
+        for r in (0.0, float(round(v[i] / q_)) * q_):
           if v[i] != r:
             yield dict(case, v=v[:i] + [r] + v[i + 1:])
       if case.get('L', 2) > 2:
@@ -275,31 +336,40 @@ class C11(core.Property):
         yield dict(case, L=case['L'] - 1)
     elif k == 'agg':
       rounds = case['rounds']
+      rs = self.rshapes(case)
+      base = {k: v for k, v in case.items() if k != 'shapes'}
       if len(rounds) > 1:
         for i in range(len(rounds)):
-          yield dict(case, rounds=rounds[:i] + rounds[i + 1:])
+          yield dict(base, rounds=rounds[:i] + rounds[i + 1:], round_shapes=rs[:i] + rs[i + 1:])
       for r, cl in enumerate(rounds):
         if len(cl) > 1:
           for i in range(len(cl)):
-            yield dict(case, rounds=rounds[:r] + [cl[:i] + cl[i + 1:]] + rounds[r + 1:])
-      nl = len(case['shapes'])
-      if nl > 1:
-        for l in range(nl):
-          yield dict(case, shapes=case['shapes'][:l] + case['shapes'][l + 1:],
-                     rounds=[[[lv[:l] + lv[l + 1:], w] for lv, w in cl] for cl in rounds])
-      for l, sh in enumerate(case['shapes']):
-        n = int(np.prod(sh)) if sh else 1
-        if sh != [n]:
-          yield dict(case, shapes=case['shapes'][:l] + [[n]] + case['shapes'][l + 1:])
-        elif n > 1:
-          yield dict(case, shapes=case['shapes'][:l] + [[n - 1]] + case['shapes'][l + 1:],
-                     rounds=[[[lv[:l] + [lv[l][:-1]] + lv[l + 1:], w] for lv, w in cl] for cl in rounds])
+            yield dict(base, round_shapes=rs, rounds=rounds[:r] + [cl[:i] + cl[i + 1:]] + rounds[r + 1:])
+      # drop leaf l in every round that has it
+      nlmax = max(len(x) for x in rs)
+      if nlmax > 1:
+        for l in range(nlmax):
+          if all(len(x) > 1 or l >= len(x) for x in rs):
+            yield dict(base, round_shapes=[x[:l] + x[l + 1:] for x in rs],
+                       rounds=[[[lv[:l] + lv[l + 1:], w] for lv, w in cl] for cl in rounds])
+      # per round: flatten a leaf shape, shorten a leaf
+      for r, shs in enumerate(rs):
+        for l, sh in enumerate(shs):
+          n = int(np.prod(sh)) if sh else 1
+          if sh != [n]:
+            yield dict(base, rounds=rounds, round_shapes=rs[:r] + [shs[:l] + [[n]] + shs[l + 1:]] + rs[r + 1:])
+          elif n > 1:
+            yield dict(base, round_shapes=rs[:r] + [shs[:l] + [[n - 1]] + shs[l + 1:]] + rs[r + 1:],
+                       rounds=rounds[:r] + [[[lv[:l] + [lv[l][:-1]] + lv[l + 1:], w] for lv, w in rounds[r]]] + rounds[r + 1:])
+      case = dict(base, round_shapes=rs)
       for r, cl in enumerate(rounds):
         for i, (lv, w) in enumerate(cl):
           for l, leaf in enumerate(lv):
-            if any(x != 0.0 for x in leaf) and any(x != float(round(x)) for x in leaf):
-              nl_ = [float(round(x)) for x in leaf]
-              yield dict(case, rounds=rounds[:r] + [cl[:i] + [[lv[:l] + [nl_] + lv[l + 1:], w]] + cl[i + 1:]] + rounds[r + 1:])
+            if any(x != 0.0 for x in leaf):
+              q_ = 2.0 ** (math.floor(math.log2(max(abs(x) for x in leaf))) - 2)
+              nl_ = [float(round(x / q_)) * q_ for x in leaf]
+              if nl_ != leaf:
+                yield dict(case, rounds=rounds[:r] + [cl[:i] + [[lv[:l] + [nl_] + lv[l + 1:], w]] + cl[i + 1:]] + rounds[r + 1:])
           if w not in (1.0,):
             yield dict(case, rounds=rounds[:r] + [cl[:i] + [[lv, 1.0]] + cl[i + 1:]] + rounds[r + 1:])
       if case['L'] > 2:
@@ -498,7 +568,9 @@ class C11(core.Property):
       nontrivial = len(set(v)) > 1
     else:
       nontrivial = any(a != 0 for a in v)
-    tags = (f'q={q}', f'vec={case.get("vk", "enum")}', f'size={"1" if len(v) == 1 else ("<=8" if len(v) <= 8 else ">8")}',
+    mags = [abs(float(a)) for a in v if a != 0]
+    mag = 'zero' if not mags else ('tiny' if max(mags) < 1e-6 else ('large' if max(mags) > 1e5 else 'unit'))
+    tags = (f'q={q}', f'vec={case.get("vk", "enum").split("*")[0]}', f'magnitude={mag}', f'size={"1" if len(v) == 1 else ("<=8" if len(v) <= 8 else ">8")}',
             f'L={L}' if q == 'uniform' else 'L=-', f'rank={len(shape)}')
     return Outcome(oracle_fail='; '.join(problems[:3]) or None, corr_fail='; '.join(corr[:3]) or None,
                    key=(f'C11/{q}/{okey}' if okey else None), nontrivial=nontrivial, tags=tags,
@@ -644,18 +716,18 @@ class C11(core.Property):
 
   def eval_agg(self, case, ctx):
     jax, jnp, C, WH = self.jax, self.jnp, self.C, self.WH
-    a, L, shapes, seed = case['agg'], case['L'], case['shapes'], case['seed']
+    a, L, seed = case['agg'], case['L'], case['seed']
+    rs = self.rshapes(case)           # leaf shapes per round (same aggregator object throughout)
     kind = {'uniform': 'uniform', 'uniform_arith': 'uniform', 'rotated': 'rotated', 'drive': 'drive', 'tern': 'tern'}[a]
-    names = [chr(ord('a') + i) for i in range(len(shapes))]   # dict keys flatten in sorted order
-    nl = len(shapes)
+    ALL = [chr(ord('a') + i) for i in range(max(len(x) for x in rs))]   # dict keys flatten in sorted order
     root = jax.random.PRNGKey(seed)
     problems, corr, okey = [], [], None
 
-    def tree_of(leaves):
-      return {nm: jnp.asarray(np.asarray(lv, np.float32).reshape(sh)) for nm, lv, sh in zip(names, leaves, shapes)}
+    def tree_of(leaves, shapes):
+      return {nm: jnp.asarray(np.asarray(lv, np.float32).reshape(sh)) for nm, lv, sh in zip(ALL, leaves, shapes)}
 
     def flat(tree):
-      return [np.asarray(tree[nm]) for nm in names]
+      return [np.asarray(tree[nm]) for nm in ALL if nm in tree]
 
     # recorders around the module-level functions the aggregators call
     rec = {'quant': [], 'rot': [], 'inv': []}
@@ -682,10 +754,10 @@ class C11(core.Property):
       aggr = self.make_agg(case, root)
       st = aggr.init()
       states = [st]
-      for clients in case['rounds']:
+      for clients, shapes in zip(case['rounds'], rs):
         for s in rec.values():
           s.clear()
-        cpw = [(b'c%d' % i, tree_of(lv), w) for i, (lv, w) in enumerate(clients)]
+        cpw = [(b'c%d' % i, tree_of(lv, shapes), w) for i, (lv, w) in enumerate(clients)]
         snaps = [[l.copy() for l in flat(t)] for _, t, _ in cpw]
         out, st2 = aggr.apply(cpw, st)
         if any(not np.array_equal(s, l) for sn, (_, t, _) in zip(snaps, cpw) for s, l in zip(sn, flat(t))):
@@ -694,6 +766,18 @@ class C11(core.Property):
                             'rec': {k: list(v) for k, v in rec.items()}, 'prev': st})
         st = st2
         states.append(st)
+      # hidden state in the aggregator object: replaying round 0 from a fresh init() on the SAME
+      # object must reproduce round 0 exactly (the model's round is a function of state and clients)
+      if case['rounds']:
+        cpw = [(b'c%d' % i, tree_of(lv, rs[0]), w) for i, (lv, w) in enumerate(case['rounds'][0])]
+        out_b, st_b = aggr.apply(cpw, aggr.init())
+        first = impl_rounds[0]
+        same = (out_b is None) == (first['out'] is None) and (
+            out_b is None or all(np.array_equal(x, y, equal_nan=True) for x, y in zip(flat(out_b), first['out'])))
+        if not same or float(st_b.num_bits) != float(first['st'].num_bits) or not np.array_equal(
+            np.asarray(st_b.rng), np.asarray(first['st'].rng)):
+          corr.append('replaying round 0 from init() on the same aggregator object after the history gives a '
+                      f'different result (bits {float(st_b.num_bits)} vs {float(first["st"].num_bits)})')
     finally:
       for (mod, name), f in orig.items():
         setattr(mod, name, f)
@@ -701,14 +785,17 @@ class C11(core.Property):
     # ---- model: key paths, derived draws, history
     ncl = max(len(cl) for cl in case['rounds'])
     R = len(case['rounds'])
-    kq, ksign, kstate = ctx.drv.ask([line('c11.keys', kind, [], nl, R, ncl)])[0]
+    nls = sorted({len(x) for x in rs})
+    kans = dict(zip(nls, ctx.drv.ask([line('c11.keys', kind, [], n_, R, ncl) for n_ in nls])))
+    kq = [kans[len(rs[r])][0][r] for r in range(R)]
+    ksign = [kans[len(rs[r])][1][r] if kind == 'rotated' else [] for r in range(R)]
     draws, sigmas = [], []
     client_keys_model = []   # per round per client: key one level above the leaf keys
     for r, clients in enumerate(case['rounds']):
       ck = []
       for c, (leaves, w) in enumerate(clients):
         ck.append(np.asarray(self.key_of(seed, kq[r][c][0][:-1])))
-        for l, (lv, sh) in enumerate(zip(leaves, shapes)):
+        for l, (lv, sh) in enumerate(zip(leaves, rs[r])):
           p = kq[r][c][l]
           key = self.key_of(seed, p)
           n = len(lv)
@@ -737,8 +824,11 @@ class C11(core.Property):
     any_tie = False
     for r, (clients, ir, mr) in enumerate(zip(case['rounds'], impl_rounds, model)):
       out = ir['out']
+      nl = len(rs[r])
+      names = ALL[:nl]
       W = sum(w for _, w in clients)
-      P = sum(len(lv) for lv in clients[0][0]) if clients else 0
+      # documented formula, evaluated on THIS round's tree (independent of the implementation)
+      P = sum(int(np.prod(sh)) if sh else 1 for sh in rs[r]) if clients else 0
       nleaves = nl if clients else 0
       # finiteness
       if out is not None and not all(np.all(np.isfinite(o)) for o in out):
@@ -876,7 +966,11 @@ class C11(core.Property):
     ctx.count('agg_rounds', R)
     ctx.count('agg_cases_with_tie', int(any_tie))
     distinct = len({str(cl[0]) for rd in case['rounds'] for cl in rd}) > 1
-    tags = (f'agg={a}', f'rounds={R}', f'clients={ncl}', f'leaves={nl}', f'L={L}' if kind in ('uniform', 'rotated') else 'L=-')
+    varies = 'same' if all(x == rs[0] for x in rs) else ('leaves' if len({len(x) for x in rs}) > 1 else 'shapes')
+    mags = [abs(x) for rd in case['rounds'] for lv, _ in rd for leaf in lv for x in leaf if x != 0.0]
+    mag = 'zero' if not mags else ('tiny' if max(mags) < 1e-6 else ('large' if max(mags) > 1e5 else 'unit'))
+    tags = (f'agg={a}', f'rounds={R}', f'clients={ncl}', f'leaves={len(ALL)}', f'tree_over_rounds={varies}',
+            f'magnitude={mag}', f'L={L}' if kind in ('uniform', 'rotated') else 'L=-')
     return Outcome(oracle_fail='; '.join(problems[:3]) or None, corr_fail='; '.join(corr[:3]) or None, key=okey,
                    nontrivial=distinct, tags=tags,
                    detail={'impl': [None if ir['out'] is None else [o.reshape(-1).tolist()[:16] for o in ir['out']] for ir in impl_rounds],
@@ -901,7 +995,7 @@ class C11(core.Property):
   def rot_tie(self, case, ir, r, l, draws, kq, ksign, ctx):
     """rotated aggregator: does some client have a near-tie coordinate in rotated space on leaf l?"""
     L = case['L']
-    names = [chr(ord('a') + i) for i in range(len(case['shapes']))]
+    names = [chr(ord('a') + i) for i in range(len(self.rshapes(case)[r]))]
     for c, e in enumerate(ir['rec']['rot']):
       y = np.asarray(e['out'][0][names[l]], np.float64).reshape(-1)
       v = [Fr(float(x)) for x in y]
